@@ -184,7 +184,9 @@ class ImplRunner:
         if k == "tagvalues":
             keys = [V.unhx(a) for a in t[1][1:]]
             m = self._meas(t[2])
-            r = db.measurement(m).get_tag_values(keys) if via else db.get_tag_values(keys, m)
+            # the selection is any iterable of keys: a list, a tuple, or a one-shot iterator
+            sel = [keys, tuple(keys), iter(keys), (k for k in keys)][len(repr(t)) % 4]
+            r = db.measurement(m).get_tag_values(sel) if via else db.get_tag_values(sel, m)
             items = sorted(r.items(), key=lambda kv: kv[0])
             return "ok " + V.show_list(
                 lambda kv: V.hx(kv[0]) + ":" + V.show_list(V.show_opt_str, kv[1]), items
